@@ -46,8 +46,10 @@ func (om *options) try(args []string, c *ParseContext) (bool, []string) {
 		if _, exclude := c.ExcludedOpts[o]; exclude {
 			continue
 		}
+		before := len(c.Opts[o])
 		if ok, nargs := (&opt{theOne: o, index: om.index}).Match(args, c); ok {
-			if o.ValueSetFromEnv {
+			if len(c.Opts[o]) == before {
+				// matched through its env value only: do not try it again
 				c.ExcludedOpts[o] = struct{}{}
 			}
 			return true, nargs
